@@ -51,14 +51,14 @@ fn comp_outcome(prop: &str, args: &Args, agg: comp::CompAgg, rule: &str, t0: Ins
     }
 }
 
-fn run_spec(spec: checks::Spec, args: &Args, t0: Instant) -> i32 {
-    let mut rc = engine::RunCfg::new(args.secs);
+fn spec_outcome(spec: checks::Spec, args: &Args, t0: Instant, secs: u64) -> Outcome {
+    let mut rc = engine::RunCfg::new(secs);
     rc.threads = args.threads;
     let njobs = spec.jobs.len();
     let agg = engine::run_jobs(spec.jobs, spec.oracle, spec.interesting, rc);
     let reported = agg.violations.iter().map(|v| report::Reported::from_found(spec.id, spec.id, v)).collect();
     let coverage = report::coverage_from_agg(&agg, &spec.rule, json!({ "programs_generated": njobs }));
-    finish(Outcome {
+    Outcome {
         property: spec.id.into(),
         tier: args.tier.clone(),
         seed: args.seed,
@@ -67,7 +67,172 @@ fn run_spec(spec: checks::Spec, args: &Args, t0: Instant) -> i32 {
         reported,
         machinery_errors: agg.machinery_errors,
         wall_s: t0.elapsed().as_secs_f64(),
-    })
+    }
+}
+
+fn run_spec(spec: checks::Spec, args: &Args, t0: Instant) -> i32 {
+    finish(spec_outcome(spec, args, t0, args.secs))
+}
+
+/// Merge several outcomes of one property (numeric coverage keys are added, samples concatenated).
+fn merge(property: &str, parts: Vec<Outcome>, t0: Instant) -> Outcome {
+    let mut cov = serde_json::Map::new();
+    let mut rules = Vec::new();
+    let mut samples = Vec::new();
+    let mut exhaustive = true;
+    let mut assumptions: Vec<String> = Vec::new();
+    let mut reported = Vec::new();
+    let mut errs = Vec::new();
+    let mut parts_json = Vec::new();
+    let (tier, seed) = (parts[0].tier.clone(), parts[0].seed);
+    for p in parts {
+        if let Some(o) = p.coverage.as_object() {
+            for (k, v) in o {
+                match (k.as_str(), v) {
+                    ("rule", serde_json::Value::String(r)) => rules.push(r.clone()),
+                    ("samples", serde_json::Value::Array(a)) => samples.extend(a.iter().take(3).cloned()),
+                    ("exhaustive", serde_json::Value::Bool(b)) => exhaustive &= *b,
+                    (_, serde_json::Value::Number(n)) if n.is_u64() => {
+                        let cur = cov.get(k).and_then(|x| x.as_u64()).unwrap_or(0);
+                        cov.insert(k.clone(), json!(cur + n.as_u64().unwrap()));
+                    }
+                    _ => {}
+                }
+            }
+            parts_json.push(json!({"part": p.property, "coverage": p.coverage}));
+        }
+        for a in p.assumptions {
+            if !assumptions.contains(&a) {
+                assumptions.push(a);
+            }
+        }
+        reported.extend(p.reported.into_iter().map(|mut r| {
+            r.property = property.to_string();
+            r
+        }));
+        errs.extend(p.machinery_errors);
+    }
+    cov.insert("rule".into(), json!(rules.join(" || ")));
+    cov.insert("samples".into(), json!(samples));
+    cov.insert("exhaustive".into(), json!(exhaustive));
+    cov.insert("parts".into(), json!(parts_json));
+    Outcome {
+        property: property.into(),
+        tier,
+        seed,
+        coverage: serde_json::Value::Object(cov),
+        assumptions,
+        reported,
+        machinery_errors: errs,
+        wall_s: t0.elapsed().as_secs_f64(),
+    }
+}
+
+/// C19: the async flavour satisfies the properties (same harness bodies, background *tasks*,
+/// every polling order and ready-arm choice) and behaves like the sync flavour on settled corpora.
+fn c19(args: &Args, t0: Instant) -> i32 {
+    use model::Flavor::{Async, Sync};
+    let quick = args.tier == "quick";
+    let mut parts = Vec::new();
+    let budget = (args.secs / 14).max(4);
+    // 1. properties on the async flavour
+    type Mk = fn(&str, model::Flavor) -> checks::Spec;
+    let specs: Vec<(&str, Mk, usize)> = vec![
+        ("C01", checks::c01, 7),
+        ("C02", checks::c02, 11),
+        ("C03", checks::c03, 5),
+        ("C04", checks::c04, 13),
+        ("C05", checks::c05, 11),
+        ("C06", checks::c06, 7),
+        ("C08", checks::c08, 11),
+        ("C09", checks::c09, 13),
+        ("C10", checks::c10, 5),
+        ("C11", checks::c11, 5),
+        ("C12", checks::c12, 3),
+        ("C15", checks::c15, 3),
+        ("C16", checks::c16, 7),
+        ("C17", checks::c17, 7),
+    ];
+    for (name, mk, stride) in &specs {
+        let mut spec = mk("quick", Async);
+        let stride = if quick { *stride } else { 1 };
+        let total = spec.jobs.len();
+        spec.jobs = spec.jobs.into_iter().enumerate().filter(|(i, _)| i % stride == 0).map(|(_, j)| j).collect();
+        spec.rule = format!("[async {}: every {}-th program of its quick corpus ({} of {})] {}", name, stride, spec.jobs.len(), total, spec.rule);
+        let mut o = spec_outcome(spec, args, t0, if quick { budget } else { args.secs / 16 });
+        o.property = format!("C19-async-{}", name);
+        parts.push(o);
+    }
+    // 2. differential: settled corpora on both flavours, outcome sets must coincide
+    parts.push(differential(args, t0, quick));
+    finish(merge("C19", parts, t0))
+}
+
+fn differential(args: &Args, t0: Instant, quick: bool) -> Outcome {
+    use model::Flavor::{Async, Sync};
+    let mut jobs = Vec::new();
+    let mut names = Vec::new();
+    type Mk = fn(&str, model::Flavor) -> checks::Spec;
+    let corp: Vec<(&str, Mk, usize)> = vec![
+        ("C03", checks::c03, 3),
+        ("C04", checks::c04, 29),
+        ("C05", checks::c05, 17),
+        ("C09", checks::c09, 31),
+        ("C16", checks::c16, 5),
+        ("C17", checks::c17, 5),
+        ("C18", checks::c18, 17),
+    ];
+    for (name, mk, stride) in corp {
+        let stride = if quick { stride } else { (stride / 4).max(1) };
+        let s = mk("quick", Sync);
+        for (i, j) in s.jobs.into_iter().enumerate() {
+            if i % stride != 0 || !checks::is_settled(&j.program) {
+                continue;
+            }
+            let mut a = j.clone();
+            a.program.flavor = Async;
+            names.push(format!("{}: {}", name, j.program.short()));
+            jobs.push(j);
+            jobs.push(a);
+        }
+    }
+    let n = jobs.len();
+    let mut rc = engine::RunCfg::new(if quick { (args.secs / 4).max(10) } else { args.secs / 4 });
+    rc.threads = args.threads;
+    rc.keep_job_states = true;
+    let agg = engine::run_jobs(jobs, |_, _| vec![], |_, t| !t.ledger.is_empty() || t.recs.iter().any(|r| matches!(r.res, model::Res::Val(Some(_)))), rc);
+    let mut reported = Vec::new();
+    let mut compared = 0u64;
+    for i in 0..n / 2 {
+        if let (Some(s), Some(a)) = (agg.job_states.get(&(2 * i)), agg.job_states.get(&(2 * i + 1))) {
+            compared += 1;
+            if s != a {
+                reported.push(report::Reported {
+                    property: "C19".into(),
+                    check: "c19-diff".into(),
+                    class: "async-differs-from-sync".into(),
+                    msg: format!("the sets of observable outcomes differ: sync {} outcomes, async {} outcomes, {} in common", s.len(), a.len(), s.intersection(a).count()),
+                    case_text: names[i].clone(),
+                    replay: json!({"kind": "diff", "program": names[i]}),
+                });
+            }
+        }
+    }
+    let coverage = report::coverage_from_agg(
+        &agg,
+        "differential: settled single-client programs taken from the corpora of C03, C04, C05, C09, C16, C17, C18 run on Cache and on AsyncCache under every scheduling/select choice at bound 0; the SETS of observable outcomes (return values, lookups, remaining TTLs, callbacks with costs, final entries, charges, expiry index, metrics) must be equal",
+        json!({ "programs_generated": n, "program_pairs_compared": compared }),
+    );
+    Outcome {
+        property: "C19-differential".into(),
+        tier: args.tier.clone(),
+        seed: args.seed,
+        coverage,
+        assumptions: checks::COMMON_ASSUMPTIONS.iter().map(|s| s.to_string()).collect(),
+        reported,
+        machinery_errors: agg.machinery_errors,
+        wall_s: t0.elapsed().as_secs_f64(),
+    }
 }
 
 fn run_check(id: &str, args: &Args) -> i32 {
@@ -114,6 +279,15 @@ fn run_check(id: &str, args: &Args) -> i32 {
         "C11" => run_spec(checks::c11(&args.tier, model::Flavor::Sync), args, t0),
         "C12" => run_spec(checks::c12(&args.tier, model::Flavor::Sync), args, t0),
         "C17" => run_spec(checks::c17(&args.tier, model::Flavor::Sync), args, t0),
+        "C15" => run_spec(checks::c15(&args.tier, model::Flavor::Sync), args, t0),
+        "C20" => run_spec(checks::c20(&args.tier, model::Flavor::Sync), args, t0),
+        "C18" => {
+            let agg = comp::run_cases("C18", "c18", comp::c18_cases(&args.tier), comp::c18_case, args.threads);
+            let a = comp_outcome("C18-keybuilders", args, agg, "TransparentKeyBuilder over ALL values of u8, i8, u16, i16, bool and boundary sets (0, +-1, MIN, MAX, 2^j, 2^j+-1) of u32, i32, u64, i64, usize, isize: build_key == (k as u64, 0), stable across calls and instances, injective; DefaultKeyBuilder<String>: 4 instances x 1000 strings, String vs &str vs repeated calls", t0, &[]);
+            let b = spec_outcome(checks::c18(&args.tier, model::Flavor::Sync), args, t0, args.secs);
+            finish(merge("C18", vec![a, b], t0))
+        }
+        "C19" => c19(args, t0),
         "C03" => run_spec(checks::c03(&args.tier, model::Flavor::Sync), args, t0),
         "C04" => run_spec(checks::c04(&args.tier, model::Flavor::Sync), args, t0),
         "C05" => run_spec(checks::c05(&args.tier, model::Flavor::Sync), args, t0),
